@@ -377,6 +377,13 @@ impl Sim {
             eprint!("TRACE {line}");
         }
         let site = format!("{}:{}", ev.call.name(), role_of(&ev.path));
+        if ev.err != 0 && ev.err != libc::EEXIST {
+            *self.site_counts.entry(format!("{site}:errno{}", ev.err)).or_insert(0) += 1;
+        }
+        if ev.task > 0 {
+            // inside the concurrent window (conc build): reach probes are derived from these
+            *self.site_counts.entry(format!("task:{site}{}", if ev.err != 0 && ev.err != libc::EEXIST { format!(":errno{}", ev.err) } else { String::new() })).or_insert(0) += 1;
+        }
         *self.site_counts.entry(site).or_insert(0) += 1;
         self.mon.on_event(&self.disk, &ev);
         if self.keep_trace {
